@@ -319,6 +319,40 @@ class Rewriter:
             self.count("R7 .expect(..) -> .vx_expect() (abort on None/Err)")
         return text
 
+    def format_concat(self, text):
+        """R29 (opt-in per function, `fmtconcat`): `format!("a{}b{}", X, Y)` whose format string has only plain `{}` holes
+        becomes the concatenation it denotes, piece by piece: vx_cat(vx_cat(vx_cat(vx_cat(vx_empty_string(), "a"),
+        vx_disp(X)), "b"), vx_disp(Y)) - the literal pieces and their order are taken from the source, so a changed
+        separator or a swapped argument changes the verified text.  Other format specs ({:?}, {name}, {:x}) -> undecided."""
+        guard = 0
+        while True:
+            guard += 1
+            if guard > 50:
+                raise ExtractError("R29: too many rewrites")
+            m = re.search(r"\bformat\s*!\s*\(", text)
+            if not m:
+                return text
+            toks = tokenize(text[m.end() - 1:])
+            e = match_close(toks, 0)
+            inner = text[m.end():m.end() - 1 + toks[e].start]
+            args = split_top_commas(inner)
+            if not args or not re.match(r'^"(?:[^"\\]|\\.)*"$', args[0]):
+                raise ExtractError("R29: format! without a literal format string")
+            lit = args[0][1:-1]
+            if re.search(r"\{[^}]+\}", lit) or "\\" in lit:
+                raise ExtractError("R29: unsupported format spec in %s" % args[0])
+            pieces = lit.split("{}")
+            if len(pieces) - 1 != len(args) - 1:
+                raise ExtractError("R29: format! holes and arguments differ")
+            expr = "vx_empty_string()"
+            for k, piece in enumerate(pieces):
+                if piece:
+                    expr = 'vx_cat(%s, "%s")' % (expr, piece)
+                if k < len(args) - 1:
+                    expr = "vx_cat(%s, vx_disp(%s).as_str())" % (expr, args[k + 1])
+            text = text[:m.start()] + expr + text[m.end() - 1 + toks[e].end:]
+            self.count("R29 format!(..) -> concatenation of its pieces")
+
     def option_closures(self, text):
         """R22 (opt-in per function, `optclosures`): Option combinators taking a closure are desugared to `match`, the
         closure body kept verbatim:  RECV.map(|x| BODY) -> (match RECV { Some(x) => Some(BODY), None => None }),
@@ -1253,6 +1287,8 @@ class Unit:
             body = rw.iter_all_any(body)
         if opts.get("optclosures"):
             body = rw.option_closures(body)
+        if opts.get("fmtconcat"):
+            body = rw.format_concat(body)
         body = rw.loop_continue(body)
         body = rw.discarded_option_map(body)
         body = rw.debug_guards(body)
